@@ -584,6 +584,51 @@ Proof.
 Qed.
 
 (* ---------------------------------------------------------------------------------------------------- *)
+(* teardown flushes each writer on its own                                                                *)
+(* ---------------------------------------------------------------------------------------------------- *)
+(* Flush of ANY writer - also one whose descriptor rejects writes (closed, or a target like /dev/full), or one that
+   already carries a write error - touches nothing but that writer and the file behind its descriptor *)
+Lemma flush_any_frame s b :
+  let s' := fst (bw_flush A s b) in
+  (forall q, q <> fd_path (fdd A s (bw_fd A (buf A s b))) -> dsk A s' q = dsk A s q) /\
+  (forall b', b' <> b -> buf A s' b' = buf A s b') /\ (forall f', fdd A s' f' = fdd A s f') /\
+  nd A s' = nd A s /\ logpath A s' = logpath A s.
+Proof.
+  unfold bw_flush. destruct (bw_err A (buf A s b)); [cbn; repeat split; reflexivity|].
+  destruct (bw_buf A (buf A s b)) as [|x l] eqn:Eb; [cbn; repeat split; reflexivity|].
+  unfold bw_raw, fd_write. destruct (fd_closed (fdd A s (bw_fd A (buf A s b)))) eqn:Ec.
+  - cbn. unfold buf, put_buf, set_bufs, dsk, fdd. cbn. repeat split; try reflexivity.
+    intros b' Hb'. now apply mget_mset_other.
+  - cbn. unfold buf, put_buf, set_bufs, set_disk, dsk, fdd. cbn. repeat split; try reflexivity.
+    + intros q Hq. now apply mget_mset_other.
+    + intros b' Hb'. now apply mget_mset_other.
+Qed.
+
+(* Whatever the state of the stdout: writer (buffered bytes, a failing target, a sticky error): when the node is torn
+   down, what the log writer still buffers reaches the log file.  (node.go flushes logWriter and stdoutWriter one by
+   one and keeps the last error; it does not stop at the first.) *)
+Theorem teardown_flushes_log : forall s lw lf path bl,
+  n_done (nd A s) = false -> n_logW (nd A s) = Some lw -> sink s lw lf path bl ->
+  (forall ow, n_outW (nd A s) = Some ow -> ow <> lw /\ fd_path (fdd A s (bw_fd A (buf A s ow))) <> path) ->
+  dsk A (teardown A s) path = dsk A s path ++ bl.
+Proof.
+  intros s lw lf path bl Hd HlW Hsk Hout.
+  unfold teardown. rewrite Hd, HlW. cbn [flush_opt].
+  set (s1 := set_nd A s _).
+  assert (K1 : sink s1 lw lf path bl) by exact Hsk.
+  destruct (flush_spec s1 lw lf path bl K1) as (FD1 & FK1 & FR1).
+  set (s2 := fst (bw_flush A s1 lw)) in *.
+  destruct FR1 as (D1 & B1 & F1 & C1 & P1).
+  assert (H3 : dsk A (flush_opt A s2 (n_outW (nd A s))) path = dsk A s path ++ bl).
+  { destruct (n_outW (nd A s)) as [ow|] eqn:Eo; cbn [flush_opt]; [|exact FD1].
+    destruct (Hout ow eq_refl) as [Hne Hp].
+    destruct (flush_any_frame s2 ow) as (D2 & _).
+    rewrite D2; [exact FD1|].
+    rewrite (B1 ow Hne), F1. exact (not_eq_sym Hp). }
+  destruct (n_logF (nd A s)), (n_outF (nd A s)); exact H3.
+Qed.
+
+(* ---------------------------------------------------------------------------------------------------- *)
 (* all attempts                                                                                           *)
 (* ---------------------------------------------------------------------------------------------------- *)
 Lemma chunks_running j cs : forall s L Opre Epre E, running j s L L L Opre Epre E ->
@@ -701,3 +746,11 @@ Example complete_all_example :
   atts <> [] /\ dsk nat r (logpath nat r) = repeat 5 4097 ++ [6] /\ dsk nat r P_STDERR = [1; 2; 3; 9] /\
   outvar nat r = Some (repeat 5 4097 ++ [6]).
 Proof. cbv zeta. split; [discriminate|]. vm_compute. repeat split; reflexivity. Qed.
+
+(* a `stdout:` target that rejects every write (the descriptor of the stdout writer fails): the log still gets all *)
+Example teardown_log_with_failing_stdout :
+  let c := mkc true false false false in
+  let s := exec nat c init (body nat 0 [(Out, [1; 2; 3]); (Err, [4])]) in
+  let s' := match n_outF (nd nat s) with Some f => close nat s f | None => s end in   (* the target starts failing *)
+  dsk nat (teardown nat s') (logpath nat s') = [1; 2; 3; 4] /\ dsk nat (teardown nat s') P_STDOUT = [].
+Proof. vm_compute. split; reflexivity. Qed.
